@@ -68,7 +68,7 @@ technique_round3["C09"] += ", read-modify-write rule for document-level accumula
 technique_round3["C16"] += ", dominance of the list sort over attaching the list"
 technique_round3["C19"] += ", ordering rule (copy parent state before adding keys) in the deriving methods"
 technique_round3["C01"] += ", window rule through helper reads with both-edge guard normalisation, sibling agreement of comparisons with a named byte constant"
-technique_round3["C02"] += ", key-provenance rule for lower-case word tables"
+technique_round3["C02"] += ", key-provenance rule for lower-case word tables, per-cycle index-advance rule in the resolving writer"
 technique_round3["C06"] += ", global-rooted write rule over constructors and option constructors"
 technique_round3["C08"] += ", segment-provenance rule for source slices in render functions"
 technique_round3["C10"] += ", allocation-rooted application of functional options in constructors, segment-provenance rule for source slices in render functions"
